@@ -145,6 +145,11 @@ class ScriptedSim(mosaik_api_v3.Simulator):
                        inputs=copy.deepcopy(inputs), max_advance=max_advance, lab=lab,
                        n=self.nstep)
         self.nstep += 1
+        f_ = self.spec.get("fault")
+        if f_ and f_.get("mode") == "crash" and f_.get("delay") and not self.remote \
+                and f_.get("at_request") == getattr(self, "_nreq_seen", 0):
+            import asyncio
+            yield asyncio.sleep(f_["delay"])      # fail a little later, while other requests are in flight
         self._fault("step")
         beh = self.beh
         dep = canon(inputs) if beh.get("amplify", True) else ""
@@ -300,6 +305,9 @@ class ScriptedSim(mosaik_api_v3.Simulator):
             mx = self.spec["remote"].get("max_sleep", 0.0)
             if mx:
                 _time.sleep(self._rng.random() * mx)
+            fixed = (self.beh.get("remote_sleep") or {}).get(kind)
+            if fixed:
+                _time.sleep(fixed)          # a simulator that is busy for a while in this kind of request
             return
         ctl = REC.ctl
         if ctl is None:
